@@ -271,7 +271,9 @@ func Load(ctx context.Context, wd string, env []string, tags string, patterns []
 		scope := pkg.Types.Scope()
 		for _, name := range scope.Names() {
 			obj := scope.Lookup(name)
-			if !isProviderSetType(obj.Type()) {
+			if _, isVar := obj.(*types.Var); !isVar || !isProviderSetType(obj.Type()) {
+				// Only variables hold provider sets (a type alias for
+				// wire.ProviderSet has that type but is not one).
 				continue
 			}
 			item, errs := oc.get(obj)
